@@ -562,8 +562,101 @@ class VariantReaderValid(Contract):
         return "composeinfo Variant.deserialize({%r: %s}, %r)" % (inputs["uid"], concretise.py_repr(inputs["record"]), inputs["uid"])
 
 
+class ForestWriteValidates(Contract):
+    """composeinfo Variants.serialize on the forest  T -> C [-> G]: T (and C when G is the subject) valid, every field of the SUBJECT
+    (the child C, or the grand-child G) arbitrary.  A normal return means the subject satisfies every documented rule: nothing invalid
+    is written at any depth of the forest (C06)."""
+
+    def __init__(self, src, T, depth):
+        self.src, self.T, self.depth = src, T, depth
+        self.name = "productmd.composeinfo.Variants.serialize[%s arbitrary]" % ("child" if depth == 1 else "grand-child")
+        self.key = "ser:composeinfo.Variants:validates:%d" % depth
+
+    def setup(self, E):
+        ci = E.instantiate(("composeinfo", "ComposeInfo"))
+        top, tf = _variant(E, ci, "T", symbolic=("id", "uid"))
+        E.assume(And(sym.in_lang(tf["id"], ID), eq(tf["uid"], tf["id"]), Not(eq(tf["arch"], ""))))
+        chain = [(top, tf)]
+        if self.depth == 2:
+            mid, mf = _variant(E, ci, "C", symbolic=("id", "uid"), arches=ListSet([tf["arch"]]))
+            mf["arch"] = tf["arch"]
+            E.assume(And(sym.in_lang(mf["id"], ID), eq(mf["uid"], sym.concat(_s(tf["uid"]), "-", _s(mf["id"])))))
+            mid.fields["parent"] = top
+            top.fields["variants"].entries.append(Entry(mf["id"], True, mid))
+            chain.append((mid, mf))
+        sub, sf = _variant(E, ci, "X")
+        parent, pf = chain[-1]
+        sub.fields["parent"] = parent
+        # registered under its id when that is a string (the container is keyed by strings), under a fixed key otherwise
+        key = sf["id"] if E.decide(is_str(sf["id"])) else "X"
+        parent.fields["variants"].entries.append(Entry(key, True, sub))
+        ci.fields["variants"].fields["variants"].entries.append(Entry(tf["id"], True, top))
+        return {"ci": ci, "sf": sf, "pf": pf, "tf": tf, "data": E.models.new_dict("payload")}
+
+    def call(self, E, st):
+        return E.call(E.getattr_(st["ci"].fields["variants"], "serialize"), [st["data"]])
+
+    def post(self, E, st, out):
+        if out.kind == "raise":
+            return {"raises_only_TypeError_ValueError": out.exc_cls in (TypeError, ValueError)}
+        return {"writes_only_valid_object": valid_variant(self.T, st["sf"], st["pf"])}
+
+    def concretise(self, model, st):
+        inp = dict((k, concretise.value_of(model, st["sf"][k])) for k in ("id", "uid", "name", "type", "arch"))
+        inp["T.id"] = concretise.value_of(model, st["tf"]["id"])
+        inp["T.arch"] = concretise.value_of(model, st["tf"]["arch"])
+        inp["parent_uid"] = concretise.value_of(model, st["pf"]["uid"])
+        return inp
+
+    def sample_inputs(self, rng):
+        import itertools
+        for vid, uid, name, typ, arch in itertools.product(["A", "a-b", "", None, 3], ["P-A", "P-C-A", "A", None], ["n", "", None],
+                                                           ["addon", "bogus", None], ["x86_64", "s390x"]):
+            yield {"id": vid, "uid": uid, "name": name, "type": typ, "arch": arch, "T.id": "P", "T.arch": "x86_64",
+                   "parent_uid": "P" if self.depth == 1 else "P-C"}
+
+    def native_eval(self, inputs):
+        CI = self.src.mods["composeinfo"]
+        ci = CI.ComposeInfo()
+
+        def mk(vid, uid, name, typ, arch, parent):
+            v = CI.Variant(ci)
+            v.id, v.uid, v.name, v.type, v.arches, v.parent = vid, uid, name, typ, set([arch]), parent
+            return v
+        top = mk(inputs["T.id"], inputs["T.id"], "N", "variant", inputs["T.arch"], None)
+        parent = top
+        if self.depth == 2:
+            if not isinstance(inputs["parent_uid"], str) or not inputs["parent_uid"].startswith(inputs["T.id"] + "-"):
+                return ("skip", None), None
+            mid = mk(inputs["parent_uid"][len(inputs["T.id"]) + 1:], inputs["parent_uid"], "N", "variant", inputs["T.arch"], top)
+            top.variants[mid.id] = mid
+            parent = mid
+        sub = mk(inputs["id"], inputs["uid"], inputs["name"], inputs["type"], inputs["arch"], parent)
+        parent.variants[inputs["id"] if isinstance(inputs["id"], str) else "X"] = sub
+        ci.variants.variants[top.id] = top
+        try:
+            top.validate()
+            if self.depth == 2:
+                pass
+        except Exception:
+            return ("skip", None), None
+        nat = native_call(ci.variants.serialize, {})
+        if nat[0] == "raise":
+            return nat, {"raises_only_TypeError_ValueError": nat[1] in (TypeError, ValueError)}
+        ok = True
+        try:
+            sub.validate()
+        except Exception:
+            ok = False
+        return nat, {"writes_only_valid_object": ok}
+
+    def describe(self, inputs):
+        return "composeinfo forest with %s %r under parent %r written" % ("child" if self.depth == 1 else "grand-child", inputs, inputs["parent_uid"])
+
+
 def contracts(src, T):          # noqa: F811
     return [VariantAdd(src, T, "Variants", 0), VariantAdd(src, T, "Variants", 1), VariantAdd(src, T, "Variant", 0), VariantAdd(src, T, "Variant", 1),
             GetItem(src, T), ForestRoundTrip(src, T, False), ForestRoundTrip(src, T, True)] + \
         [VariantReaderValid(src, T, "record", k) for k in VARIANT_RECORD_FIELDS] + \
-        [VariantReaderValid(src, T, "release", k) for k in LP_RELEASE_FIELDS]
+        [VariantReaderValid(src, T, "release", k) for k in LP_RELEASE_FIELDS] + \
+        [ForestWriteValidates(src, T, 1), ForestWriteValidates(src, T, 2)]
